@@ -2791,8 +2791,15 @@ func c02Targeted(t *testing.T, out *c02Out, seed int64) {
 			nv := len(c02CaseVariants(probe.Spec.ClientID))
 			for k := 0; k < nv; k++ {
 				req, sess := g.authRequest(nil)
+				if k%2 == 1 {
+					// through the front door: the same parameters as a signed request object at the authorization endpoint
+					g.toAuthz(&req, nil)
+				}
 				line := w.exec(&req)
 				out.emit(&req, line)
+				if i := strings.Index(line, "] 302 "); req.Op == "authz" && i >= 0 {
+					line = line[i+2:]
+				}
 				if !strings.HasPrefix(line, "302 ") {
 					continue
 				}
